@@ -107,6 +107,10 @@ def main(argv=None):
             faults.append(f"{uname}: {len(a_['errors'])} engine error(s): {a_['errors'][0].splitlines()[0]}")
             if a.verbose:
                 print(a_["errors"][0])
+        reached = {c for p in a_["paths"] for c in p["covers"]}
+        for cname in getattr(d, "must_cover", ()):
+            if cname not in reached:
+                faults.append(f"{uname}: cover point {cname} was reached on no path (obligations behind it are vacuous)")
         total = sum(e["discharged"] + e["refuted"] + e["undecided"] + e.get("known", 0) for e in by.values())
         if total == 0:
             faults.append(f"{uname}: zero obligations generated (vacuous)")
